@@ -193,3 +193,21 @@ prop("C13", "c13",
      level="Randomised generated search with a three-way differential oracle on the assembled services; bounded exploration.",
      note="Trusted: the adapters producing the three wire forms of one logical request.",
      technique="property-based testing: differential between the three entry points")
+
+prop("C09", "c09",
+     "trusted_proxies lists (unset, empty, single IPv4/IPv6 addresses, CIDR ranges, 0.0.0.0/0, invalid entries), peer "
+     "addresses (IPv4/IPv6, inside/outside), any subset of Forwarded and X-Forwarded-For/-Proto/-Host/-Uri/-Path/-Method with "
+     "generated values in arbitrary header-name casing (repeated for untrusted peers), decision and proxy mode, against rules "
+     "whose match depends on path, host, scheme and method so that an honoured header flips the matched rule. Oracle: untrusted "
+     "peer - metamorphic: matched rule, echoed view (method, scheme, host, path, query, client address list) and status equal "
+     "those of the same request without the headers, and the upstream receives none of the client's values; trusted peer - "
+     "reference view: each present header overrides exactly its component, the client list is Forwarded/X-Forwarded-For plus "
+     "the peer, and the matched rule equals that of the equivalent direct request. Non-trivial: at least one header that would "
+     "change a matching-relevant component; distinct by scenario.",
+     [dict(run="^TestForwardedHeadersOnlyFromTrustedPeers$", quick=1500, thorough=12000, shards_thorough=10)],
+     ["X-Forwarded-Path from a trusted peer has no documented component (don't care)", "peer addresses are ones Go's HTTP server can produce",
+      "for trusted peers headers are not repeated (first-value semantics are unspecified)"],
+     level="Randomised generated search with a metamorphic oracle (untrusted) and a reference view (trusted) on the assembled "
+           "decision and proxy services; bounded exploration.",
+     note="Trusted: net.ParseIP/ParseCIDR used by the reference trust decision.",
+     technique="property-based testing: metamorphic header-removal relation + reference view")
